@@ -576,6 +576,57 @@ func runC30(p *Prog, r *Result) {
 	}
 	_ = nE
 
+	// ---- R30i: Run executes a statement the way a whole-file run does
+	// stmts() runs each statement through Runner.stmt (errexit, the ERR trap, background handling, lastExit). The clause
+	// of Run's switch for *syntax.Stmt must do the same on every path, and call nothing else that executes.
+	r.Rule("R30i", "Run hands a *syntax.Stmt to Runner.stmt on every path, like stmts() does for each statement of a file", 1)
+	{
+		found := false
+		ast.Inspect(runFD.Body, func(n ast.Node) bool {
+			ts, ok := n.(*ast.TypeSwitchStmt)
+			if !ok {
+				return true
+			}
+			for _, s2 := range ts.Body.List {
+				cc := s2.(*ast.CaseClause)
+				isStmt := false
+				for _, e := range cc.List {
+					if pt, ok := info.TypeOf(e).(*types.Pointer); ok && typeName(pt.Elem()) == "Stmt" {
+						isStmt = true
+					}
+				}
+				if !isStmt {
+					continue
+				}
+				found = true
+				// every top-level statement of the clause is the call of stmt; no conditional around it, no other executor
+				okAll, calls := true, 0
+				for _, b := range cc.Body {
+					for _, c := range nodeCallsDeep(b) {
+						if fn := calleeOf(info, c); fn != nil && fn.Type().(*types.Signature).Recv() != nil && typeName(derefType(fn.Type().(*types.Signature).Recv().Type())) == "Runner" {
+							switch fn.Name() {
+							case "stmt":
+								if es, isExpr := b.(*ast.ExprStmt); isExpr && es.X == ast.Expr(c) {
+									calls++
+								} else {
+									okAll = false
+								}
+							case "cmd", "stmts", "stmtSync", "call", "builtin":
+								okAll = false
+							}
+						}
+					}
+				}
+				r.Check(okAll && calls == 1, "R30i", "interp.(Runner).Run#case *syntax.Stmt runs it through stmt", cc.Pos(), "the clause is one unconditional call of Runner.stmt",
+					"Run does not hand every *syntax.Stmt to Runner.stmt: a statement run on its own skips what stmts() does for each statement of a file (errexit, the ERR trap, background handling), so running a file one statement at a time differs")
+			}
+			return true
+		})
+		if !found {
+			r.Undecided("R30i", "interp.(Runner).Run#case *syntax.Stmt", runFD.Pos(), "Run has no clause for *syntax.Stmt")
+		}
+	}
+
 	// ---- R30h: Run does not reset what a statement can leave behind
 	// A whole-file run goes from one top-level statement to the next without passing through Run. A field that
 	// statements write (break/continue counts, the function depth, traps, …) and that Run stores into around the
@@ -757,7 +808,10 @@ func emptiedAfter(info *types.Info, g *FGraph, blk *FBlock, idx int, val ast.Exp
 		switch x := n.(type) {
 		case *ast.ExprStmt:
 			if c, ok := x.X.(*ast.CallExpr); ok && isBuiltinCall(info, c, "clear") && len(c.Args) == 1 && selectorField(info, c.Args[0]) == fv {
-				return true
+				// clear empties a map; on a slice it zeroes the elements and keeps the length
+				if _, isMap := fv.Type().Underlying().(*types.Map); isMap {
+					return true
+				}
 			}
 		case *ast.AssignStmt:
 			for i, l := range x.Lhs {
@@ -834,6 +888,10 @@ func enclosingStmt(body *ast.BlockStmt, e ast.Node) ast.Node {
 }
 
 var c30Controls = []Control{
+	{Name: "run-shortcuts-plain-statements", Rule: "R30i", WantKey: "case *syntax.Stmt runs it through stmt", File: "interp/api.go",
+		Mutate: ctlReplaceAnywhere("\tcase *syntax.Stmt:\n\t\tr.stmt(ctx, node)\n", "\tcase *syntax.Stmt:\n\t\tif len(node.Redirs) == 0 && !node.Negated && !node.Background {\n\t\t\tr.cmd(ctx, node.Cmd)\n\t\t} else {\n\t\t\tr.stmt(ctx, node)\n\t\t}\n")},
+	{Name: "bgprocs-cleared-not-truncated", Rule: "R30b", WantKey: "literal key bgProcs", File: "interp/api.go",
+		Mutate: ctlChain(ctlReplaceAnywhere("\t\tVars: r.Vars,\n", "\t\tVars: r.Vars,\n\t\tbgProcs: r.bgProcs,\n"), ctlReplaceAnywhere("\tclear(r.bgProcs)\n\tr.bgProcs = r.bgProcs[:0]\n", "\tclear(r.bgProcs)\n"))},
 	{Name: "run-zeroes-break-count", Rule: "R30h", WantKey: "Run#stores breakEnclosing", File: "interp/api.go",
 		Mutate: ctlReplaceAnywhere("\tr.filename = \"\"\n\tswitch node := node.(type) {", "\tr.filename = \"\"\n\tr.breakEnclosing = 0\n\tswitch node := node.(type) {")},
 	{Name: "unset-without-tombstone", Rule: "R30g", WantKey: "overlayEnviron).Set#return nil", File: "interp/vars.go",
